@@ -100,9 +100,26 @@ struct Model {
     path: Vec<[u8; 8]>,
     queues: Vec<VecDeque<QTlv>>,
     overflowed: Vec<bool>,
+    /// daemon forwarder: the head of the queue has been taken out of the broadcast channel into `peek`
+    peeked: Vec<bool>,
     /// everything ever enqueued per port, for the weak (order / at-most-once / integrity) check
     history: Vec<Vec<QTlv>>,
     emitted_idx: Vec<usize>,
+}
+
+/// enqueue for port q. The daemon's forwarder is a tokio broadcast channel of 128 slots plus one peeked value per
+/// receiver: when a 129th value is sent before the receiver caught up, the oldest value still in the channel is
+/// overwritten (the receiver sees Lagged and continues with the oldest retained one).
+fn enqueue(m: &mut Model, q: usize, item: QTlv, literal: bool) {
+    m.history[q].push(item.clone());
+    m.queues[q].push_back(item);
+    if !literal {
+        let held = m.peeked[q] as usize;
+        if m.queues[q].len() - held > 128 {
+            m.queues[q].remove(held);
+            m.overflowed[q] = true;
+        }
+    }
 }
 
 pub fn case(t: &mut Tape) -> CaseOut {
@@ -137,7 +154,7 @@ pub fn case(t: &mut Tape) -> CaseOut {
     }
     // the two prelude announces carried no TLVs; drain anything pending
     let n = 1 + nmaster;
-    let mut m = Model { path_trace, path: vec![], queues: vec![VecDeque::new(); n], overflowed: vec![false; n], history: vec![vec![]; n], emitted_idx: vec![0; n] };
+    let mut m = Model { path_trace, path: vec![], queues: vec![VecDeque::new(); n], overflowed: vec![false; n], peeked: vec![false; n], history: vec![vec![]; n], emitted_idx: vec![0; n] };
     let mut seq_p = 10u16;
     let mut seq_o = 10u16;
     let nops = t.urange(2, 40);
@@ -195,12 +212,7 @@ pub fn case(t: &mut Tape) -> CaseOut {
                     for x in &tlvs {
                         if is_prop(x.typ) && x.wire_size() <= ROOM {
                             for q in 0..n {
-                                m.queues[q].push_back(QTlv { sender: src, tlv: x.clone() });
-                                m.history[q].push(QTlv { sender: src, tlv: x.clone() });
-                                let cap = if literal { usize::MAX } else { 128 };
-                                if m.queues[q].len() > cap {
-                                    m.overflowed[q] = true;
-                                }
+                                enqueue(&mut m, q, QTlv { sender: src, tlv: x.clone() }, literal);
                             }
                             if src == PARENT {
                                 let ps = if path_trace { ROOM.saturating_sub(4 + 8 * (m.path.len() + 1)) } else { ROOM };
@@ -256,6 +268,7 @@ pub fn case(t: &mut Tape) -> CaseOut {
                 let mut blocked_by_path_trace = false;
                 while let Some(h) = m.queues[p].front() {
                     if h.tlv.wire_size() > room {
+                        m.peeked[p] = true;
                         if m.path_trace && h.tlv.typ == 0x0008 && m.queues[p].len() > 1 {
                             // known finding: the parent's own PATH_TRACE TLV is queued for forwarding although it is
                             // only ever skipped by the sender; when it does not fit next to the local PATH_TRACE TLV
@@ -265,6 +278,7 @@ pub fn case(t: &mut Tape) -> CaseOut {
                         break;
                     }
                     let h = m.queues[p].pop_front().unwrap();
+                    m.peeked[p] = false;
                     if h.sender != parent_now {
                         continue;
                     }
@@ -277,12 +291,11 @@ pub fn case(t: &mut Tape) -> CaseOut {
                 if blocked_by_path_trace && msg.tlvs == want {
                     out.fail(KNOWN_PT_BLOCK, format!("{} TLVs wait behind a received PATH_TRACE TLV of {} bytes that does not fit the remaining {} bytes ; ops {:?}", m.queues[p].len() - 1, m.queues[p].front().map(|h| h.tlv.wire_size()).unwrap_or(0), room, rendered));
                 }
-                if !m.overflowed[p] {
-                    if msg.tlvs != want {
-                        let d = |v: &Vec<RTlv>| v.iter().map(|x| format!("{:04x}/{}", x.typ, x.wire_size())).collect::<Vec<_>>();
-                        out.fail("TLVs of the emitted Announce differ from the reference forwarding queue", format!("got {:?} want {:?} ; ops {:?}", d(&msg.tlvs), d(&want), rendered));
-                    }
-                } else {
+                if msg.tlvs != want {
+                    let d = |v: &Vec<RTlv>| v.iter().map(|x| format!("{:04x}/{}", x.typ, x.wire_size())).collect::<Vec<_>>();
+                    out.fail(if m.overflowed[p] { "TLVs of the emitted Announce differ from the reference forwarding queue (after an overflow of the 128-slot forwarder)" } else { "TLVs of the emitted Announce differ from the reference forwarding queue" }, format!("got {:?} want {:?} ; ops {:?}", d(&msg.tlvs), d(&want), rendered));
+                }
+                if m.overflowed[p] {
                     out.label("overflow");
                 }
                 // weak check always: order, at most once, integrity, only parent + propagating
@@ -318,11 +331,7 @@ pub fn case(t: &mut Tape) -> CaseOut {
                     node.recv_general(0, &msg.encode());
                     for x in &msg.tlvs {
                         for q in 0..n {
-                            m.queues[q].push_back(QTlv { sender: PARENT, tlv: x.clone() });
-                            m.history[q].push(QTlv { sender: PARENT, tlv: x.clone() });
-                            if !literal && m.queues[q].len() > 128 {
-                                m.overflowed[q] = true;
-                            }
+                            enqueue(&mut m, q, QTlv { sender: PARENT, tlv: x.clone() }, literal);
                         }
                     }
                 }
@@ -460,12 +469,18 @@ pub fn run(ctx: &Ctx) -> i32 {
     let mut rep = Report::new();
     sweep(&mut rep);
     run_cases(ctx, &mut rep, "histories", ctx.cases(100_000, 3_000_000), case);
+    // the forwarder as the real daemon drives it (statime-linux/src/main.rs), end to end
+    let workers = (ctx.threads as u64 / 2).clamp(2, 8);
+    let sum = crate::daemon::run_part(ctx, &mut rep, ctx.cases(12 * workers, 400 * workers), workers);
+    if let Some(why) = &sum.skipped {
+        println!("note: end-to-end daemon part skipped ({}); the other parts are unaffected", why);
+    }
     finish(
         Finish {
             ctx,
             level: "exploration",
-            rule: "boundary clock: port 1 slave of a synthetic parent, 1-3 master ports sharing the daemon's TlvForwarder wired as in main.rs (or a provider implementing the documented contract literally), path trace on/off, acceptable-master list on/off; Announces (frames to 1024 or to 2048 bytes) from the parent, another acceptable master and an unacceptable identity with 0-5 TLVs of every type class and sizes at / around the remaining room (960 minus path-trace TLV), path traces of 0..200 identities with or without the own identity; announce timers of the master ports at generated points; bursts that lag the forwarder beyond its 128-entry queue. Oracle: exact reference queue per master port (order, at most once, unmodified, only parent + propagating types, every TLV that fits is present, PATH_TRACE = parent's path + own identity); under overflow only order/at-most-once/integrity; loop Announces must be discarded without any effect. Plus an exhaustive size sweep. Non-trivial = >= 1 TLV forwarded and (size within 4 bytes of the room, >= 2 master ports, or a received path); distinct by op list.",
-            assumptions: vec!["main.rs itself is a binary; the check covers the library plus TlvForwarder wired the same way".into(), "TLVs larger than 960 bytes can never fit and are expected to be skipped without blocking later TLVs".into()],
+            rule: "boundary clock: port 1 slave of a synthetic parent, 1-3 master ports sharing the daemon's TlvForwarder wired as in main.rs (or a provider implementing the documented contract literally), path trace on/off, acceptable-master list on/off; Announces (frames to 1024 or to 2048 bytes) from the parent, another acceptable master and an unacceptable identity with 0-5 TLVs of every type class and sizes at / around the remaining room (960 minus path-trace TLV), path traces of 0..200 identities with or without the own identity; announce timers of the master ports at generated points; bursts that lag the forwarder beyond its 128-entry queue. Oracle: exact reference queue per master port (order, at most once, unmodified, only parent + propagating types, every TLV that fits is present, PATH_TRACE = parent's path + own identity); under overflow the exact contents of the 128-slot broadcast channel; loop Announces must be discarded without any effect. Plus an exhaustive size sweep. Part daemon: the real statime binary as a two-port boundary clock (private network namespace, veth pairs, PTP over Ethernet, announce interval 125 ms, path trace on in half of the daemons): the harness is the parent on port 1's segment (4-12 Announces at gaps of 60-190 ms, 0-3 TLVs each, propagating and not, plus Announces with TLVs from a worse master) and listens on port 2's segment; after five more intervals the TLVs forwarded must be exactly the parent's propagating TLVs, once each, unmodified, in order. Non-trivial = >= 1 TLV forwarded and (size within 4 bytes of the room, >= 2 master ports, or a received path); distinct by op list.",
+            assumptions: vec!["parts sweep/histories: the library plus TlvForwarder wired as in main.rs; part daemon: the binary itself, real time (cases in which the daemon is not (Slave, Master) before and after are counted as inconclusive, never as violations); skipped with a note where network namespaces are unavailable".into(), "TLVs larger than 960 bytes can never fit and are expected to be skipped without blocking later TLVs".into()],
             min_nontrivial: 100,
         },
         rep,
@@ -479,6 +494,9 @@ pub fn replay(ctx: &Ctx, path: &str) -> i32 {
         let mut rep = Report::new();
         sweep(&mut rep);
         return if rep.violations.is_empty() { println!("replay passed"); 0 } else { println!("VIOLATION property=C15 replay={}\n  {}\n  {}", path, rep.violations[0].0.sig, rep.violations[0].0.detail); 1 };
+    }
+    if v["part"].as_str() == Some("daemon") {
+        return crate::daemon::replay_part(ctx, path, 6);
     }
     replay_file(ctx, path, case)
 }
